@@ -156,11 +156,16 @@ def planeParamsFromPoints(pt1, pt2, pt3):
     params = [unit_normal[0], unit_normal[1], unit_normal[2], pos]
     flipped_params = [-unit_normal[0], -unit_normal[1], -unit_normal[2], -pos]
 
-    # the rounding error on `pos` grows with the distance of the points from
-    # the origin: a plane through the origin defined by points a few metres
-    # away must still be recognised as such
-    pos_epsilon = epsilon * max(1.0, sqrt(max(mag2(pt1), mag2(pt2),
-                                              mag2(pt3))))
+    # the rounding error on the unit normal grows as the triangle gets
+    # thinner and as the points get farther from the origin; the error on
+    # `pos` also grows with the distance of the points from the origin. A
+    # plane through the origin (or parallel to an axis) defined by points a
+    # few metres away must still be recognised as such
+    size = sqrt(max(mag2(pt1), mag2(pt2), mag2(pt3)))
+    len12, len13 = sqrt(mag2(d12)), sqrt(mag2(d13))
+    epsilon *= max(1.0, (len12 * len13 + size * (len12 + len13))
+                   / sqrt(normal_len2))
+    pos_epsilon = epsilon * max(1.0, size)
     if pos < -pos_epsilon:
         # make sure the origin lies on the negative side of the plane
         return flipped_params
